@@ -47,3 +47,10 @@ Print Assumptions board_window_nott.
 Definition C13_board_quiescence := @board_qs_contract.
 Check @board_qs_contract.
 Print Assumptions board_qs_contract.
+
+(** * Against the specification: the fail-soft window contract with v = the minimax value of the FIDE
+    game tree ([spec_mm] of Spec/Minimax.v), see Properties/C03.v and Lemmas/MinimaxRefines.v *)
+From Morlock.Lemmas Require Import MinimaxRefines.
+Definition C13_window_is_spec := @board_window_is_spec.
+Check @board_window_is_spec.
+Print Assumptions board_window_is_spec.
